@@ -18,9 +18,10 @@ components or COLR layers are not in that set and lose their GDEF data (as in Ha
 import FontVerif.Model.SubsetGdef
 import FontVerif.Lemmas.SubsetLayout
 import FontVerif.Lemmas.SubsetLayoutClassDef
+import FontVerif.Lemmas.SubsetGdef
 set_option linter.unusedVariables false
 namespace FontVerif.C17Layout
-open FontVerif FontVerif.Layout FontVerif.SubsetLayout
+open FontVerif FontVerif.Layout FontVerif.SubsetLayout FontVerif.SubsetGdef
 
 /-! ## 1. Coverage -/
 
@@ -329,7 +330,7 @@ theorem classdef_subset_get {p : LPlan} (hp : PlanOk' p) {a : CdArgs} {cd : Clas
 only with `Err(EMPTY)`, exactly when `keep_empty_table` is off and no kept glyph (passing the
 filter) has a non-zero class; it never panics and never errors otherwise. -/
 theorem classdef_subset_total {p : LPlan} (hp : PlanOk' p) {a : CdArgs} {cd : ClassDef}
-    (hcd : ClassOk cd) (hcls : ∀ g n, p.get g = some n → cd.get g < 65535) :
+    (hcd : ClassOk cd) (hcls : a.remapClass = true → ∀ g n, p.get g = some n → cd.get g < 65535) :
     (∃ r, subsetClassDef p a cd = .ok r) ∨
     (subsetClassDef p a cd = .error .empty ∧ a.keepEmpty = false ∧
       ∀ g n, p.get g = some n → wantClass a cd g = 0) := by
@@ -365,7 +366,7 @@ theorem classdef_subset_total {p : LPlan} (hp : PlanOk' p) {a : CdArgs} {cd : Cl
           · have := pairs_classes_nz hspec c hc; omega
           · obtain ⟨n, hn⟩ := ((retainedClasses_spec ps).2 c).mp hc
             obtain ⟨g, hg, _, hcg, _⟩ := (hspec.2 n c).mp hn
-            rw [← hcg]; exact hcls g n hg)
+            rw [← hcg]; exact hcls hr g n hg)
         omega
       obtain ⟨m, hm⟩ := classMap_total (useClassZero p a ps.length) hlen2
       simp only [hm]
@@ -459,5 +460,190 @@ example : PlanOk' exPlan :=
 
 example : ClassOk (.fmt2 [⟨3, 6, 2⟩, ⟨9, 9, 5⟩]) := by
   simp [ClassOk, WFClassRanges]
+
+/-! ## 3. GDEF -/
+
+/-- the sub-tables of a successful `subset_gdef` run, one equation per sub-table -/
+theorem gdef_fields {p : LPlan} {g : GdefIn} {o : GdefOut} (h : subsetGdefSem p g = .ok o) :
+    optSem g.glyphClassDef (fun cd => (subsetClassDef p gdefCdArgs cd).map (·.1)) = .ok o.glyphClassDef ∧
+    optSem g.attachList (attachSem p) = .ok o.attachList ∧
+    optSem g.ligCaretList (ligSem p (varPlan p g).vmap) = .ok o.ligCaretList ∧
+    optSem g.markAttachClassDef (fun cd => (subsetClassDef p gdefCdArgs cd).map (·.1)) = .ok o.markAttachClassDef ∧
+    setsPart p g = .ok o.markGlyphSets ∧
+    storePart p g = .ok o.varStore ∧
+    o.major = g.major ∧
+    o.minor = (if o.varStore.isSome then g.minor else if o.markGlyphSets.isSome then 2 else 0) ∧
+    (o.glyphClassDef.isSome || o.attachList.isSome || o.ligCaretList.isSome ||
+      o.markAttachClassDef.isSome || o.markGlyphSets.isSome || o.varStore.isSome) = true := by
+  unfold subsetGdefSem at h
+  simp only [bind, Except.bind] at h
+  split at h
+  · cases h
+  · rename_i store hstore
+    split at h
+    · cases h
+    · rename_i sets hsets
+      split at h
+      · cases h
+      · rename_i mac hmac
+        split at h
+        · cases h
+        · rename_i lig hlig
+          split at h
+          · cases h
+          · rename_i att hatt
+            split at h
+            · cases h
+            · rename_i cls hcls
+              split at h
+              · simp only [pure, Except.pure, Except.ok.injEq] at h
+                subst h
+                rename_i hany
+                exact ⟨hcls, hatt, hlig, hmac, hsets, hstore, rfl, rfl, hany⟩
+              · cases h
+
+theorem optSem_ok {α β : Type} {t : Tbl α} {f : α → M β} {r : Option β} (h : optSem t f = .ok r) :
+    (t = .absent ∧ r = none) ∨
+    ∃ x, t = .ok x ∧ ((f x = .error .empty ∧ r = none) ∨ ∃ y, f x = .ok y ∧ r = some y) := by
+  unfold optSem at h
+  cases t with
+  | absent => left; simp only [pure, Except.pure, Except.ok.injEq] at h; exact ⟨rfl, h.symm⟩
+  | bad => cases h
+  | ok x =>
+    right
+    refine ⟨x, rfl, ?_⟩
+    simp only at h
+    cases hf : f x with
+    | ok y =>
+      simp only [hf, pure, Except.pure, Except.ok.injEq] at h
+      right; exact ⟨y, rfl, h.symm⟩
+    | error e =>
+      cases e with
+      | empty =>
+        simp only [hf, pure, Except.pure, Except.ok.injEq] at h
+        left; exact ⟨rfl, h.symm⟩
+      | soft => simp [hf] at h
+      | hard => simp [hf] at h
+      | trap => simp [hf] at h
+
+/-- read-fonts' `ClassDef::get` on an optional class definition (no table = class 0) -/
+def classOf (cd : Option ClassDef) (g : Nat) : Nat :=
+  match cd with
+  | some cd => cd.get g
+  | none => 0
+
+def tblOpt {α : Type} : Tbl α → Option α
+  | .ok x => some x
+  | _ => none
+
+theorem gdef_class_preserved_aux {p : LPlan} (hp : PlanOk' p) {t : Tbl ClassDef} {r : Option ClassDef}
+    (hcd : ∀ cd, t = .ok cd → ClassOk cd)
+    (h : optSem t (fun cd => (subsetClassDef p gdefCdArgs cd).map (·.1)) = .ok r) :
+    (∀ g n, p.get g = some n → classOf r n = classOf (tblOpt t) g) ∧
+    (∀ n, (∀ g, p.get g ≠ some n) → classOf r n = 0) := by
+  have hw : ∀ cd g, wantClass gdefCdArgs cd g = cd.get g := by
+    intro cd g; simp [wantClass, passFilter, gdefCdArgs]
+  rcases optSem_ok h with ⟨e1, e2⟩ | ⟨cd, e1, hh⟩
+  · subst e1; subst e2
+    exact ⟨fun _ _ _ => rfl, fun _ _ => rfl⟩
+  · subst e1
+    have hok := hcd cd rfl
+    rcases hh with ⟨he, e2⟩ | ⟨y, hy, e2⟩
+    · subst e2
+      -- subset to empty: no kept glyph has a class
+      have hne : subsetClassDef p gdefCdArgs cd = .error .empty := by
+        cases hs : subsetClassDef p gdefCdArgs cd with
+        | ok v => rw [hs] at he; cases he
+        | error e => rw [hs] at he; simp only [Except.map] at he; injection he with he; rw [he]
+      rcases classdef_subset_total hp (a := gdefCdArgs) hok (by simp [gdefCdArgs]) with ⟨v, hv⟩ | ⟨_, _, hz⟩
+      · rw [hv] at hne; cases hne
+      · refine ⟨fun g n hg => ?_, fun _ _ => rfl⟩
+        have := hz g n hg
+        rw [hw] at this
+        simp [classOf, tblOpt, this]
+    · subst e2
+      cases hs : subsetClassDef p gdefCdArgs cd with
+      | error e => rw [hs] at hy; cases hy
+      | ok v =>
+        rw [hs] at hy
+        simp only [Except.map, Except.ok.injEq] at hy
+        obtain ⟨out, cm⟩ := v
+        simp only at hy; subst hy
+        obtain ⟨h1, h2, h3⟩ := classdef_subset_get hp hok hs
+        have hcm : cm = none := by
+          cases cm with
+          | none => rfl
+          | some m => simp [gdefCdArgs] at h3
+        subst hcm
+        refine ⟨fun g n hg => ?_, fun n hn => h2 n hn⟩
+        have := h1 g n hg
+        simpa [classOf, tblOpt, remapC, hw] using this
+
+/-- **gdef_glyph_class_preserved**: `glyph_class(subset, glyph_map g) = glyph_class(original, g)` for
+every glyph kept for layout, read through read-fonts' `ClassDef::get` (a missing GlyphClassDef —
+also one the subsetter dropped because it became empty — is class 0); every other new id has
+class 0. -/
+theorem gdef_glyph_class_preserved {p : LPlan} (hp : PlanOk' p) {g : GdefIn} {o : GdefOut}
+    (hcd : ∀ cd, g.glyphClassDef = .ok cd → ClassOk cd) (h : subsetGdefSem p g = .ok o) :
+    (∀ gl n, p.get gl = some n → classOf o.glyphClassDef n = classOf (tblOpt g.glyphClassDef) gl) ∧
+    (∀ n, (∀ gl, p.get gl ≠ some n) → classOf o.glyphClassDef n = 0) :=
+  gdef_class_preserved_aux hp hcd (gdef_fields h).1
+
+/-- **gdef_mark_attach_class_preserved**: the same for the MarkAttachClassDef -/
+theorem gdef_mark_attach_class_preserved {p : LPlan} (hp : PlanOk' p) {g : GdefIn} {o : GdefOut}
+    (hcd : ∀ cd, g.markAttachClassDef = .ok cd → ClassOk cd) (h : subsetGdefSem p g = .ok o) :
+    (∀ gl n, p.get gl = some n →
+      classOf o.markAttachClassDef n = classOf (tblOpt g.markAttachClassDef) gl) ∧
+    (∀ n, (∀ gl, p.get gl ≠ some n) → classOf o.markAttachClassDef n = 0) :=
+  gdef_class_preserved_aux hp hcd (gdef_fields h).2.2.2.1
+
+/-- **gdef_version_downgrade_sound**: the variation store is written only for minor version >= 3 and
+the mark glyph sets only for >= 2; the written minor version is the original one when a store is
+written, else 2 when mark glyph sets are written, else 0 — and the header has exactly the fields a
+reader of that version expects (12 / 14 / 18 bytes), so no written sub-table is hidden behind a
+lowered version and no reader looks for a field that was not written; a GDEF is produced only
+when some sub-table survives. -/
+theorem gdef_version_downgrade_sound {p : LPlan} {g : GdefIn} {o : GdefOut}
+    (h : subsetGdefSem p g = .ok o) :
+    (o.varStore.isSome → 3 ≤ g.minor ∧ o.minor = g.minor) ∧
+    (o.markGlyphSets.isSome → 2 ≤ g.minor ∧ 2 ≤ o.minor) ∧
+    (o.varStore = none → o.markGlyphSets.isSome → o.minor = 2) ∧
+    (o.varStore = none → o.markGlyphSets = none → o.minor = 0) ∧
+    (encodeGdefObj o).1.bytes.length = (if 3 ≤ o.minor then 18 else if 2 ≤ o.minor then 14 else 12) ∧
+    (o.glyphClassDef.isSome || o.attachList.isSome || o.ligCaretList.isSome ||
+      o.markAttachClassDef.isSome || o.markGlyphSets.isSome || o.varStore.isSome) = true := by
+  obtain ⟨_, _, _, _, hsets, hstore, _, hminor, hany⟩ := gdef_fields h
+  have hs3 : o.varStore.isSome → 3 ≤ g.minor := by
+    intro hs
+    by_cases h3 : g.minor ≥ 3
+    · exact h3
+    · simp only [storePart, h3, ↓reduceIte, pure, Except.pure, Except.ok.injEq] at hstore
+      rw [← hstore] at hs; cases hs
+  have hs2 : o.markGlyphSets.isSome → 2 ≤ g.minor := by
+    intro hs
+    by_cases h2 : g.minor ≥ 2
+    · exact h2
+    · simp only [setsPart, h2, ↓reduceIte, pure, Except.pure, Except.ok.injEq] at hsets
+      rw [← hsets] at hs; cases hs
+  have hlen : ∀ (s : S) {α : Type} (t : Option α) (w pos : Nat) (enc : α → Child),
+      (encOpt t w pos enc s).cur.bytes = s.cur.bytes := by
+    intro s α t w pos enc
+    cases t <;> simp [encOpt, linkChild]
+  refine ⟨fun hs => ⟨hs3 hs, by simp [hminor, hs]⟩, fun hs => ⟨hs2 hs, ?_⟩, ?_, ?_, ?_, hany⟩
+  · rw [hminor]
+    by_cases hst : o.varStore.isSome = true
+    · have := hs3 hst; simp [hst]; omega
+    · simp [hst, hs]
+  · intro hn hs; simp [hminor, hn, hs]
+  · intro hn hs; simp [hminor, hn, hs]
+  · simp only [encodeGdefObj, hlen]
+    rw [hminor]
+    by_cases hst : o.varStore.isSome = true
+    · have := hs3 hst
+      have h3 : 3 ≤ g.minor := this
+      simp [hst, be16, h3]
+    · by_cases hse : o.markGlyphSets.isSome = true
+      · simp [hst, hse, be16]
+      · simp [hst, hse, be16]
 
 end FontVerif.C17Layout
